@@ -594,7 +594,7 @@ Proof.
   destruct (restale_op_dests t llgr addr) as [Ed _]. cbv zeta in Ed.
   apply invS_same_counts; [reflexivity|reflexivity|].
   intro x. unfold cr, ca. rewrite Ed.
-  split; apply sumd_mp_same; intros n d; destruct (restale_dest_entries (restale_flags llgr addr (t_dests t) (t_flags t)) addr n d) as [_ Hp].
+  split; apply sumd_mp_same; intros n d; destruct (restale_dest_entries (restale_flags llgr addr (t_dests t) (t_flags t)) llgr addr n d) as [_ Hp].
   - unfold hr. symmetry. apply hrl_perm, Hp.
   - unfold ha. symmetry. apply hal_perm, Hp.
 Qed.
